@@ -117,6 +117,13 @@ impl<T: PayloadEncode> WireEncode for ScionPacket<T> {
     fn wire_valid(&self) -> Result<(), InvalidStructureError> {
         self.header.wire_valid()?;
         self.payload.wire_valid()?;
+        // The payload length is a 16-bit field (and so is the UDP length, which equals it); a
+        // larger payload would be encoded with a wrapped length.
+        if self.payload.required_size(self.header.required_size()) > u16::MAX as usize {
+            return Err(InvalidStructureError::from(
+                "payload size exceeds maximum encodeable value of 65535 bytes",
+            ));
+        }
         Ok(())
     }
 
